@@ -105,6 +105,14 @@ def run_hier(c):
         for d in obj.state_descriptions:
             n, _, k = d.partition("@")
             descr.append({"n": n, "c": int(k) if k.isdigit() else -1})
+        if uid % 2 == 0:
+            # a second instance of the same class, connected later, lists the same states
+            obj2 = final()
+            setup_tunables(obj2, "smdef_%d_%d_2nd" % (os.getpid(), uid))
+            # (... and the first instance goes on listing them: found D13)
+            if list(obj2.state_names) != names or list(obj.state_names) != names \
+                    or list(obj2.state_descriptions) != list(obj.state_descriptions):
+                return {"error": "second_instance_lists_differ", "msg": str(list(obj2.state_names))}
         return {"error": None, "names": names, "descr": descr}
     except Exception as e:  # noqa
         return {"error": "after_instantiation:" + errname(e), "msg": str(e)}
